@@ -22,6 +22,9 @@ theorem enzymes_ok : enzymes.all EnzRow.ok = true := by decide +kernel
 theorem enzymes_cutAligned : enzymes.all (fun r => cutAligned (EnzRow.geom r) r.modS && cutAligned (EnzRow.geom r) r.vecS
     && cutAligned (EnzRow.geom r) r.modP && cutAligned (EnzRow.geom r) r.vecP) = true := by decide +kernel
 
+/-- every supported site is spelt with nucleotides only and is not its own reverse complement -/
+theorem enzymes_sites : enzymes.all (fun r => r.site.all Nt.isBase && (r.site != rcNt r.site)) = true := by decide +kernel
+
 theorem enzymes_nonempty : 20 ≤ enzymes.length := by decide +kernel
 
 end Moclo.Tables
